@@ -123,11 +123,13 @@ func runC13(c *Ctx) {
 		c13combined(c)
 		return
 	}
-	switch c.G.Weighted(3, 3, 2, 3) {
+	switch c.G.Weighted(3, 3, 2, 3, 2) {
 	case 0:
 		c13multi(c)
 	case 1:
 		c13lock(c)
+	case 4:
+		c13lockBuffered(c)
 	case 2:
 		c13writers(c)
 	default:
@@ -321,17 +323,27 @@ func c13multi(c *Ctx) {
 	}
 }
 
-// c13same: identity of two WriteSyncers, also for the (uncomparable) slice
-// type behind a multi-WriteSyncer.
+// c13same: identity of two WriteSyncers, also for values that == cannot
+// compare (a slice type or a struct holding a slice behind a multi-WriteSyncer):
+// those are the same when their representations are bit for bit the same.
 func c13same(a, b zapcore.WriteSyncer) bool {
 	va, vb := reflect.ValueOf(a), reflect.ValueOf(b)
 	if va.Type() != vb.Type() {
 		return false
 	}
-	if va.Kind() == reflect.Slice {
-		return va.Len() == vb.Len() && va.Pointer() == vb.Pointer()
+	if va.Comparable() {
+		return a == b
 	}
-	return va.Comparable() && a == b
+	if va.Kind() == reflect.Ptr || va.Kind() == reflect.Map || va.Kind() == reflect.Chan || va.Kind() == reflect.Func {
+		return va.Pointer() == vb.Pointer()
+	}
+	// a non-pointer value in an interface is held by reference to a copy
+	n := va.Type().Size()
+	pa, pb := ifacePtr(a), ifacePtr(b)
+	if pa == nil || pb == nil {
+		return pa == pb
+	}
+	return bytes.Equal(unsafe.Slice((*byte)(pa), n), unsafe.Slice((*byte)(pb), n))
 }
 
 func c13counts(sinks []*zsim.SimSink) []int {
@@ -486,6 +498,89 @@ func c13lock(c *Ctx) {
 	for k, v := range sink.Fired {
 		c.Faults[k] += v
 	}
+}
+
+// ---- (lock over a buffering syncer) ----
+
+// c13lockBuffered: Lock around a WriteSyncer that is not a bare device but a
+// BufferedWriteSyncer over one. Every call reaches the buffered syncer through
+// the Lock wrapper and no flush tick is ever delivered (the simulated clock
+// stands still), so whatever the buffered syncer does to its device happens
+// inside a call made under Lock: two device calls in progress at once mean
+// Lock let two calls in at once.
+func c13lockBuffered(c *Ctx) {
+	g, r := c.G, c.R
+	sink := zsim.NewSimSink(r, "dev", 1+g.Draw(3), uint64(g.Draw(1<<16))+1)
+	r.Label(unsafe.Pointer(sink), "dev")
+	clk := zsim.NewSimClock(r, drawEpoch(g))
+	size := pick(g, 4, 8, 16, 64)
+	b := &zapcore.BufferedWriteSyncer{WS: sink, Size: size, FlushInterval: time.Hour}
+	b.Clock = clk.For(unsafe.Pointer(b), unsafe.Sizeof(*b))
+	locked := zapcore.Lock(b)
+	nTasks := 2 + g.Draw(2)
+	type op struct {
+		kind byte
+		n    int
+	}
+	progs := make([][]op, nTasks)
+	for t := range progs {
+		for i := 0; i < 1+g.Draw(5); i++ {
+			if g.Chance(3) {
+				progs[t] = append(progs[t], op{'S', 0})
+			} else {
+				progs[t] = append(progs[t], op{'W', 1 + g.Draw(2*size)})
+			}
+		}
+	}
+	c.Describe("member=lock-over-buffered size=%d tasks=%d frag=%d progs=%v policy=%s", size, nTasks, sink.Frag, progs, r.Policy)
+	accepted := make([][]byte, nTasks)
+	for t := range progs {
+		t := t
+		r.Go(fmt.Sprintf("t%d", t), func() {
+			for _, o := range progs[t] {
+				if o.kind == 'W' {
+					p := bytes.Repeat([]byte{byte('a' + t)}, o.n)
+					n, err := locked.Write(p)
+					if n != len(p) || err != nil {
+						c.Fail("C13: BufferedWriteSyncer behind Lock did not report len(p), nil over a healthy sink", "task t%d: Write(len %d) = (%d, %v)", t, len(p), n, err)
+						return
+					}
+					accepted[t] = append(accepted[t], p...)
+				} else if err := locked.Sync(); err != nil {
+					c.Fail("C13: Sync through Lock failed over a healthy sink", "task t%d: %v", t, err)
+					return
+				}
+				zsim.Yield(zsim.KOp, nil)
+			}
+		})
+	}
+	c.Nontrivial = true
+	c.Sim()
+	if r.Failed() {
+		return
+	}
+	if err := locked.Sync(); err != nil {
+		c.Fail("C13: Sync through Lock failed over a healthy sink", "final Sync: %v", err)
+		return
+	}
+	_ = b.Stop()
+	// each task's bytes arrive complete and in that task's order
+	got := make([][]byte, nTasks)
+	for _, ch := range sink.Data {
+		if t := int(ch) - 'a'; t >= 0 && t < nTasks {
+			got[t] = append(got[t], ch)
+		} else {
+			c.Fail("C13: a byte no task wrote reached the sink behind Lock", "%q in %q", ch, clip(sink.Data))
+			return
+		}
+	}
+	for t := range got {
+		if !bytes.Equal(got[t], accepted[t]) {
+			c.Fail("C13: after a Sync through Lock the sink does not hold what the tasks wrote", "task t%d wrote %d bytes, the sink holds %d of them", t, len(accepted[t]), len(got[t]))
+			return
+		}
+	}
+	c.MixState(uint64(len(sink.Data))<<8 | uint64(sink.Writes))
 }
 
 // ---- (writers) ----
